@@ -23,6 +23,9 @@ clauses
   seed-history              same seed => bitwise identical HDF5 content whatever random numbers were consumed before run()
   seed-none                 torch.manual_seed(s); run(seed=None) == run(seed=s) bitwise (documented meaning of None)
   seed-differs              different seeds => different step-0 velocities (Temp > 0) / different Langevin trajectories
+  step0-row-is-live         the step-0 /velocities and /coordinates rows equal molecule.velocities / .coordinates right after the real
+                            initialize, bitwise, every engine incl. SurfaceHoppingDynamics damped and undamped
+  T0-live                   the temperature of those LIVE velocities (live constants, n_dof in force) equals Temp to 1e-10
   supplied-step0            supplied velocities are the step-0 /velocities row and the post-initialize molecule.velocities, bitwise
   supplied-seed             the seed has no effect on an NVE run with supplied velocities (bitwise equal HDF5)
   supplied-seed-history     stochastic engine (Langevin, damped XL-BOMD, surface hopping) started from preset velocities: the same seed
@@ -47,7 +50,7 @@ ASSUMPTIONS = ["float64 CPU, one torch thread, runs of one case execute in one p
                "n_dof rule is the documented one (docs/source/bomd.rst: 3 / 6 constraints, linear molecules not auto-detected; "
                "Langevin keeps 3N)", "atomic masses of the shipped table are the property's given"]
 REQUIRED_MONITORS = ["md_runs", "draws_checked", "zero_com_calls", "zero_com_nontrivial", "digest_pairs", "supplied_checked",
-                     "padding_rows_checked", "linear_molecules", "stochastic_supplied", "reuse_sequences"]
+                     "padding_rows_checked", "linear_molecules", "stochastic_supplied", "reuse_sequences", "live_step0_checked", "sh_cells"]
 CASE_TIMEOUT = 600.0
 BUDGET_S = {"quick": 230, "thorough": 1600}
 
@@ -86,6 +89,16 @@ def gen_cases(tier, seed):
                       "method": ["AM1", "PM3"][i % 2], "Temp": [300.0, 1000.0, 10.0][i % 3], "sequence": seqs[i % 4],
                       "seeds": [int(g.integers(0, 10 ** 6)), int(g.integers(0, 10 ** 6))], "preconsume": int(g.integers(1, 500)),
                       "steps": 2, "dt": [0.5, 0.2][i % 2], "geom_seed": int(g.integers(0, 2 ** 31))})
+    for i in range(2 if tier == "quick" else 12):
+        cases.append({"kind": "draw", "mols": [["CH2O"], ["CH2O", "CH2O"]][(i // 2) % 2], "engine": ["sh-nve", "sh"][i % 2], "method": "AM1",
+                      "Temp": [300.0, 50.0, 1000.0][(i // 2) % 3], "remove_com": [None, ["linear", 1], ["angular", 1]][(i // 2) % 3],
+                      "seed": int(g.integers(0, 10 ** 6)), "preconsume": int(g.integers(1, 2000)), "steps": 2, "dt": 0.2,
+                      "geom_seed": 2 * int(g.integers(0, 2 ** 30))})
+    for i in range(1 if tier == "quick" else 8):
+        cases.append({"kind": "supplied", "mols": [["CH2O"], ["CH2O", "CH2O"]][i % 2], "engine": "sh-nve", "method": "AM1", "Temp": 300.0,
+                      "field_T": 300.0, "variant": variants[i % 4], "remove_com": None,
+                      "seeds": [int(g.integers(0, 10 ** 6)), int(g.integers(0, 10 ** 6))], "steps": 2, "dt": 0.2,
+                      "geom_seed": 2 * int(g.integers(0, 2 ** 30))})
     for i in range(1 if tier == "quick" else 8):
         cases.append({"kind": "supplied", "mols": [["CH2O"], ["CH2O", "CH2O"]][i % 2], "engine": "sh", "method": "AM1", "Temp": 50.0,
                       "field_T": 300.0, "variant": variants[i % 4], "remove_com": None,
@@ -107,20 +120,22 @@ def _engine(case):
         return "langevin", 15.0, None
     if e == "sh":
         return "sh", 15.0, None
+    if e == "sh-nve":
+        return "sh", None, None
     return "basic", None, None
 
 
 def _sett(case):
     from vlib import run
 
-    if case["engine"] == "sh":
+    if case["engine"].startswith("sh"):
         return run.settings(case["method"], eps=EPS, converger=(2,), excited={"n_states": 2, "method": "cis", "tolerance": 1e-7})
     return run.settings(case["method"], eps=EPS, converger=(2,))
 
 
 def _ndof_rule(engine, nat, rc):
     c = 0.0 if rc is None else (6.0 if str(rc[0]).lower() == "angular" else 3.0)
-    if engine in ("langevin", "xl-damped", "sh"):
+    if engine in ("langevin", "xl-damped", "sh", "sh-nve"):  # Langevin.set_dof (inherited by surface hopping) keeps 3N
         c = 0.0
     return 3.0 * nat - c
 
@@ -330,6 +345,16 @@ def _step0(acc, case, Zs, rec, tag, drawn):
             continue
         mm = md.masses(Zr)
         x0, v0 = h["coordinates"][0], h["velocities"][0]
+        sv, sx = (rec.get("snap") or {}).get("v"), (rec.get("snap") or {}).get("x")
+        if sv is not None and sx is not None:
+            # the step-0 rows must be the state the first integrator step starts from (live Molecule right after initialize)
+            lv, lx = sv[k, :len(Zr)], sx[k, :len(Zr)]
+            acc.flag("step0-row-is-live", not (np.array_equal(lv, v0) and np.array_equal(lx, x0)),
+                     {"mol": k, "run": tag, "engine": case["engine"], "max_abs_dv": float(np.abs(lv - v0).max()),
+                      "max_abs_dx": float(np.abs(lx - x0).max())})
+            acc.mon["live_step0_checked"] += 1
+        else:
+            lv = None
         nd = _ndof_rule(case["engine"], len(Zr), rc)
         allowed = {nd}
         if nd != 3.0 * len(Zr) and str(rc[0]).lower() == "angular" and case["mols"][k] in LINEAR:
@@ -337,11 +362,11 @@ def _step0(acc, case, Zs, rec, tag, drawn):
         fac = _rigid_factor(mm, x0)
         if rec["n_dof"] is not None:
             live = float(rec["n_dof"][k])
-            acc.upd("n_dof-rule", min(abs(live - a_) for a_ in allowed), 1e-9,
+            acc.upd("n_dof-rule", float(np.min(np.abs(live - np.array(sorted(allowed))))), 1e-9,
                     {"mol": k, "live": live, "documented": nd, "engine": case["engine"], "remove_com": rc, "species": Zr})
             if any(abs(live - a_) < 1e-9 for a_ in allowed):
                 nd = live
-        if nd <= 0.0:
+        if not (nd > 0.0):
             acc.flag("n_dof-positive", True, {"mol": k, "n_dof": nd, "species": Zr, "remove_com": rc, "T0_stored": float(h["T"][0])},
                      mech=_ndof_mech(case, Zs))
             continue
@@ -357,6 +382,10 @@ def _step0(acc, case, Zs, rec, tag, drawn):
                 det = {"mol": k, "T0_stored": float(h["T"][0]), "Temp": T, "n_dof": nd, "species": Zr, "run": tag,
                        "rel_tolerance_momenta": fac}
                 acc.upd("T0-stored", abs(float(h["T"][0]) / T - 1.0), 1e-10, det)
+                if lv is not None:
+                    lc = md.live_constants()
+                    Tl = 2.0 * md.kinetic_amu(mm, lv) * lc["KINETIC_ENERGY_SCALE"] * lc["TEMPERATURE_SCALE"] / nd
+                    acc.upd("T0-live", abs(Tl / T - 1.0), 1e-10, dict(det, T0_live=Tl))
                 Tind = 2.0 * md.kinetic_amu(mm, v0) * md.REF_KE_SCALE * md.REF_TEMP_SCALE / nd
                 acc.upd("T0-codata", abs(Tind / T - 1.0), 1e-6, dict(det, T0_recomputed=Tind))
                 P, L = md.momenta(mm, x0, v0)
@@ -416,6 +445,8 @@ def _draw(case):
         same = all(np.array_equal(A["h5"][k]["velocities"][0], Cc["h5"][k]["velocities"][0]) for k in range(len(Zs)))
         acc.flag("seed-differs", same, {"seeds": [s0, s0 + 1 + case["preconsume"]]})
         acc.mon["digest_pairs"] += 1
+    if case["engine"].startswith("sh"):
+        acc.mon["sh_cells"] += 1
     acc.cells.append("draw/%s/T%g/rc-%s/%s" % (case["engine"], case["Temp"], case["remove_com"][0] if case["remove_com"] else "none",
                                                "batch" if len(Zs) > 1 else ("linear" if case["mols"][0] in LINEAR else "nonlinear")))
     return {"nontrivial": bool(ok), "violations": acc.viol, "margins": acc.margins, "monitors": acc.mon, "cells": acc.cells,
@@ -475,7 +506,9 @@ def _supplied(case):
             acc.flag("supplied-step0", not np.array_equal(row, V[k, :len(Zr)]),
                      {"where": "/velocities row 0", "run": tag, "mol": k, "variant": var, "max_abs_diff": diff}, mech=mech)
             acc.mon["supplied_checked"] += 1
-    if not stochastic:
+    if eng == "sh-nve":
+        pass  # hop decisions draw random numbers but a hop within two steps is not guaranteed: neither relation is implied
+    elif not stochastic:
         acc.flag("supplied-seed", A["digest"] != B["digest"], {"seeds": case["seeds"], "engine": eng})
         acc.mon["digest_pairs"] += 1
     else:
@@ -489,6 +522,8 @@ def _supplied(case):
             acc.flag("seed-differs", same, {"seeds": case["seeds"], "engine": eng,
                                             "what": "stochastic trajectory from preset velocities, same RNG history"})
             acc.mon["digest_pairs"] += 1
+    if eng.startswith("sh"):
+        acc.mon["sh_cells"] += 1
     acc.cells.append("supplied/%s/%s/rc-%s/%s" % (eng, var, case["remove_com"][0] if case["remove_com"] else "none",
                                                   "batch" if len(Zs) > 1 else "single"))
     return {"nontrivial": bool(ok), "violations": acc.viol, "margins": acc.margins, "monitors": acc.mon, "cells": acc.cells,
